@@ -528,6 +528,27 @@ def check(ctx):
                 s = (m > 0) - (m < 0)
                 if res[1] != (1 if pred(s) else 0):
                     viol("cmp_sign:" + op, text, "agreement with the sign of %s = %r" % (t1, m), a)
+        # the six REGISTERED comparisons, called through dispatch: the parser rewrites `a > b` / `a >= b` into
+        # `b < a` / `b <= a`, so the text above never reaches the functions registered under ">" and ">=".
+        ia, ib = run(A.ka), run(B.ka)
+        if ia[0] == "ok" and ib[0] == "ok":
+            for op, sym, pred in CMP:
+                try:
+                    with core.alarm(5):
+                        res = ("ok", R.functions.dispatch(sym, [ia[1], ib[1]]))
+                except BaseException as e:  # noqa
+                    if isinstance(e, (KeyboardInterrupt, SystemExit)):
+                        raise
+                    res = ("err", core.err_code(e))
+                a = canon(res)
+                text = "dispatch(%r, [%s, %s])" % (sym, A.ka, B.ka)
+                note(text, "cmp-registered:" + op, a)
+                cases.append(("inst %s %s %s" % (op, ka, kb), a, text))
+                exp = "ok i:%d" % (1 if pred(d) else 0)
+                if a != exp:
+                    ctx.violation("cmp_sign:registered-" + op, text, exp + " (I - J = %s us)" % d, a,
+                                  "PYTHONPATH=/repo/src HOME=<empty dir> python -c \"from ka.functions import dispatch; "
+                                  "from ka.types import instant_from_iso as i; print(dispatch(%r, [i(%r), i(%r)]))\"" % (sym, A.text, B.text))
 
     # ---------------------------------------------------------------- non-time quantities
     def do_non_time(L, qtext):
